@@ -161,10 +161,12 @@ def sortCallbacks (cs0 : List Cb) : SortOut :=
 def removeCallbacks (cs : List Cb) (removed : List String) : List Cb :=
   cs.filter (fun c => !removed.contains c.name)
 
-/-- processor state: `p.callbacks` and `p.fns` -/
+/-- processor state: `p.callbacks` and `p.fns`; `order` is a ghost field (not in the Go struct): the
+    `sorted` name list of the last compile, i.e. the names of `p.fns` in execution order -/
 structure Proc where
   callbacks : List Cb := []
   fns : List Nat := []
+  order : List String := []
 deriving Repr
 
 /-- `compile()` -/
@@ -173,7 +175,7 @@ def Proc.compile (p : Proc) : Proc × Option SortErr :=
   let removed := (p.callbacks.filter (·.remove)).map (·.name)
   let cbs := if removed.isEmpty then cbs else removeCallbacks cbs removed
   let out := sortCallbacks cbs
-  ({ callbacks := out.cs, fns := out.fns }, out.err)
+  ({ callbacks := out.cs, fns := out.fns, order := out.sorted }, out.err)
 
 inductive RegOp where
   | register (name before after : String) (matchOk : Bool) (hid : Nat)
